@@ -7,9 +7,12 @@ import (
 	"errors"
 	"fmt"
 	"io"
+	"io/fs"
 	"net/http"
 	"net/http/httptest"
+	"os"
 	"strings"
+	"syscall"
 	"testing"
 	"time"
 
@@ -38,7 +41,21 @@ type c08KD struct {
 	Use     string    `json:"use"`   // encryption | signing | "" (attribute omitted)
 	Certs   []c08Cert `json:"certs"` // no entry: KeyInfo/X509Data without any X509Certificate element
 	Methods bool      `json:"encryption_methods"`
+	// MethodSet: which algorithms the EncryptionMethod children name when Methods is set ("": the library's own list).
+	// The listing is the SP's wish, never a reason to send the assertion in clear.
+	MethodSet string `json:"encryption_method_set,omitempty"`
 }
+
+var c08MethodSets = map[string][]saml.EncryptionMethod{
+	"gcm-only":          {{Algorithm: "http://www.w3.org/2009/xmlenc11#aes128-gcm"}, {Algorithm: "http://www.w3.org/2009/xmlenc11#aes256-gcm"}},
+	"tripledes-only":    {{Algorithm: "http://www.w3.org/2001/04/xmlenc#tripledes-cbc"}},
+	"gcm-then-cbc":      {{Algorithm: "http://www.w3.org/2009/xmlenc11#aes128-gcm"}, {Algorithm: "http://www.w3.org/2001/04/xmlenc#aes256-cbc"}, {Algorithm: "http://www.w3.org/2001/04/xmlenc#rsa-oaep-mgf1p"}},
+	"keytransport-only": {{Algorithm: "http://www.w3.org/2001/04/xmlenc#rsa-oaep-mgf1p"}, {Algorithm: "http://www.w3.org/2001/04/xmlenc#rsa-1_5"}},
+	"unknown-only":      {{Algorithm: "urn:example:cipher:rot13"}},
+	"aes256-first":      {{Algorithm: "http://www.w3.org/2001/04/xmlenc#aes256-cbc"}, {Algorithm: "http://www.w3.org/2001/04/xmlenc#aes128-cbc"}},
+}
+
+var c08MethodSetNames = []string{"gcm-only", "tripledes-only", "gcm-then-cbc", "keytransport-only", "unknown-only", "aes256-first"}
 
 type c08Knobs struct {
 	MaxIssueDelayMs int64   `json:"MaxIssueDelay_ms"`
@@ -53,8 +70,11 @@ type c08Step struct {
 	Session int `json:"session,omitempty"`
 	// emit: the k-th read from the xmlenc random source during this emission fails (0: none; a transient entropy fault)
 	RandFailAt int `json:"rand_read_fails_at,omitempty"`
+	RandErr    int `json:"rand_error_kind,omitempty"` // index into the error kinds a failing source may return (0: a plain error; ENOENT path errors, ErrNotExist, EOFs, EAGAIN, deadline)
 	// emit: the application drives the IdpAuthnRequest API itself and, when writing the response fails, tries again on the SAME request object
 	Retry bool `json:"retry_on_same_request,omitempty"`
+	// emit: the user carries one more attribute whose value is this many bytes long (the plaintext's length decides block and chunk boundaries)
+	Pad int `json:"filler_attribute_bytes,omitempty"`
 	// rekey: the SP rolls its key over (rsa1 <-> rsa3) and re-registers the same layout with the other certificate
 	// inner: foreign-IdP response, once in plaintext and once encrypted, with one defect inside
 	Defect   string `json:"defect,omitempty"`
@@ -151,6 +171,9 @@ func genEncrypt(g *Rng, tier string) *Plan {
 			if kd.Use != "signing" && g.Bool(0.4) {
 				c.Methods = !c.Methods
 			}
+			if c.Methods && g.Bool(0.4) {
+				c.MethodSet = Pick(g, c08MethodSetNames...)
+			}
 			k.Layout = append(k.Layout, c)
 		}
 	} else {
@@ -158,6 +181,9 @@ func genEncrypt(g *Rng, tier string) *Plan {
 		n := 1 + g.PickW(3, 4, 2)
 		for i := 0; i < n; i++ {
 			kd := c08KD{Use: Pick(g, "encryption", "encryption", "", "", "signing"), Methods: g.Bool(0.5)}
+			if kd.Methods && g.Bool(0.4) {
+				kd.MethodSet = Pick(g, c08MethodSetNames...)
+			}
 			nc := g.PickW(1, 8, 2)
 			for j := 0; j < nc; j++ {
 				kd.Certs = append(kd.Certs, c08Cert{Kind: Pick(g, c08CertKinds...)})
@@ -169,8 +195,15 @@ func genEncrypt(g *Rng, tier string) *Plan {
 	ne := 2 + g.PickW(4, 3, 2)
 	for i := 0; i < ne; i++ {
 		st := c08Step{Kind: "emit", Session: g.PickW(5, 3, 2)}
+		switch {
+		case i == 0:
+			st.Pad = int(g.Run*16) % 4096 // consecutive runs walk the plaintext length through every 16-byte block position of a 4 KiB window
+		case g.Bool(0.6):
+			st.Pad = g.Intn(9000)
+		}
 		if g.Bool(0.12) {
 			st.RandFailAt = 1 + g.Intn(5)
+			st.RandErr = g.Intn(len(c08EntropyErrs))
 			st.Retry = g.Bool(0.5)
 		}
 		p.Steps = append(p.Steps, mustJSON(st))
@@ -358,6 +391,9 @@ func c08Register(spv *saml.ServiceProvider, kds []c08KD) (*saml.EntityDescriptor
 		}
 		if kd.Methods {
 			d.EncryptionMethods = c08Methods
+			if ms, ok := c08MethodSets[kd.MethodSet]; ok {
+				d.EncryptionMethods = ms
+			}
 		}
 		out = append(out, d)
 	}
@@ -375,7 +411,21 @@ func c08Register(spv *saml.ServiceProvider, kds []c08KD) (*saml.EntityDescriptor
 
 // ---------------------------------------------------------------- sessions (unique marker strings)
 
-func c08Session(i int) (*saml.Session, []string) {
+func c08Session(i int, pad ...int) (*saml.Session, []string) {
+	s, secret := c08SessionBase(i)
+	if len(pad) > 0 && pad[0] > 0 {
+		unit := marker("fill", i) + "."
+		v := strings.Repeat(unit, pad[0]/len(unit)+1)[:pad[0]]
+		s.CustomAttributes = append(s.CustomAttributes, saml.Attribute{Name: "filler", NameFormat: "urn:oasis:names:tc:SAML:2.0:attrname-format:basic",
+			Values: []saml.AttributeValue{{Type: "xs:string", Value: v}}})
+		if pad[0] >= len(unit) {
+			secret = append(secret, marker("fill", i))
+		}
+	}
+	return s, secret
+}
+
+func c08SessionBase(i int) (*saml.Session, []string) {
 	s := &saml.Session{ID: marker("sessid", i), CreateTime: time.Now().UTC(), ExpireTime: time.Now().Add(time.Hour).UTC(),
 		Index: marker("idx", i), NameID: marker("nid", i), SubjectID: marker("sub", i),
 		UserName: marker("un", i), UserEmail: marker("em", i) + "@example.com", UserCommonName: marker("cn", i), UserSurname: marker("sn", i),
@@ -397,16 +447,29 @@ type c08Recorder struct {
 	reads  int
 	failAt int // the failAt-th read while recording fails (0: none)
 	failed bool
+	errIdx int // which error the failing read returns
 }
 
 var errC08Entropy = errors.New("getrandom: resource temporarily unavailable (injected)")
+
+// c08EntropyErrs: what a failing entropy source can return; an error's identity must never be read as "this SP has no key".
+var c08EntropyErrs = []error{
+	errC08Entropy,
+	&fs.PathError{Op: "open", Path: "/dev/urandom", Err: syscall.ENOENT}, // a chroot or container without the device
+	fs.ErrNotExist,
+	io.ErrUnexpectedEOF,
+	io.EOF,
+	&fs.PathError{Op: "read", Path: "/dev/urandom", Err: syscall.EAGAIN},
+	os.ErrDeadlineExceeded,
+	fmt.Errorf("entropy: %w", os.ErrNotExist),
+}
 
 func (c *c08Recorder) Read(p []byte) (int, error) {
 	if c.on {
 		c.reads++
 		if c.failAt > 0 && c.reads == c.failAt {
 			c.failed = true
-			return 0, errC08Entropy
+			return 0, c08EntropyErrs[c.errIdx%len(c08EntropyErrs)]
 		}
 	}
 	n, err := c.r.Read(p)
@@ -645,7 +708,7 @@ func execEncrypt(t *testing.T, p *Plan) *Result {
 
 // c08Emit: one SP-initiated login answered by the library IdP, observed by the eavesdropper. Returns true to stop the run.
 func c08Emit(w *c08World, res *Result, si int, st c08Step) bool {
-	sess, secrets := c08Session(st.Session)
+	sess, secrets := c08Session(st.Session, st.Pad)
 	shape := c08Shape(w.k.Layout)
 	// the SP's request
 	var ar *saml.AuthnRequest
@@ -668,7 +731,7 @@ func c08Emit(w *c08World, res *Result, si int, st c08Step) bool {
 	w.idp.SessionProvider = fixedSession{sess}
 	w.idp.AssertionMaker = nil
 	w.rec.drawn, w.rec.on = nil, true
-	w.rec.reads, w.rec.failAt, w.rec.failed = 0, st.RandFailAt, false
+	w.rec.reads, w.rec.failAt, w.rec.failed, w.rec.errIdx = 0, st.RandFailAt, false, st.RandErr
 	var rep *reply
 	if st.Retry {
 		// NewIdpAuthnRequest / Validate / MakeAssertion / WriteResponse by hand; a failed WriteResponse is retried once
